@@ -36,3 +36,14 @@ MUTANTS = [
      [("src/pptx/opc/package.py", "partnames = {p.partname for p in self.iter_parts() if p.partname.startswith(prefix)}", "partnames = {p.partname for p in self._rels.values() if p.partname.startswith(prefix)}")],
      "R6.2 OpcPackage.next_partname"),
 ]
+
+MUTANTS += [
+    ("slide-id-gap-unsorted", "fallback gap scan over ids in document order",
+     [("src/pptx/oxml/presentation.py", "        valid_used_ids = sorted(id for id in used_ids if (MIN_SLIDE_ID <= id <= MAX_SLIDE_ID))",
+       "        valid_used_ids = [id for id in used_ids if (MIN_SLIDE_ID <= id <= MAX_SLIDE_ID)]")],
+     "R6.2 CT_SlideIdList._next_id:order"),
+    ("media-idx-sorted-as-strings", "media indices sorted as strings",
+     [("src/pptx/package.py", "                    part.partname.idx\n                    for part in self.iter_parts()\n                    if part.partname.startswith(\"/ppt/media/media\")",
+       "                    str(part.partname.idx)\n                    for part in self.iter_parts()\n                    if part.partname.startswith(\"/ppt/media/media\")")],
+     "R6.2 Package.next_media_partname:order"),
+]
